@@ -64,6 +64,20 @@ Fixpoint cont (c : comb) (ch : ascii) {struct c} : bool :=
   | _ => false
   end.
 
+(* [de c] returns None on every text that does not start with a character of [first c] *)
+Fixpoint strict (c : comb) : bool :=
+  match c with
+  | FixStr s => match s with [] => false | _ => true end
+  | Dict _ after => forallb (fun a => match a with [] => false | _ => true end) after
+  | Spaces _ _ | DecInt | HexInt | IntSpaces _ _ _ | MultiDigit _ _ => true
+  | OneOf l => forallb strict l
+  | Tupl l => match l with c1 :: _ => strict c1 | [] => false end
+  | Seq c1 n => (0 <? n) && strict c1
+  | Grid c1 None => strict c1
+  | Grid c1 (Some (h, w)) => (0 <? h * w) && strict c1
+  | Rooms _ _ | ValuedRooms _ _ _ | Custom _ => false
+  end.
+
 Definition follow_ok (c : comb) (rest : str) : Prop :=
   match rest with [] => True | ch :: _ => cont c ch = false end.
 
@@ -92,10 +106,107 @@ Fixpoint wf (c : comb) : bool :=
   | IntSpaces _ mi ms => (0 <=? mi) && (0 <=? ms) && ((mi + 1) * (ms + 1) <=? 36)
   | MultiDigit b d => (1 <=? b) && (b ^ Z.of_nat d <=? 36)
   | OneOf l =>
-      forallb wf l && forallb (fun c1 => negb (nullable c1)) l
+      forallb wf l && forallb strict l && forallb (fun c1 => negb (nullable c1)) l
       && pairwise (fun a b => disjoint (first a) (first b)) l
   | Tupl l =>
       forallb wf l && pairwise (fun a b => disjoint (cont a) (first b)) l
   | Seq c1 _ | Grid c1 _ | ValuedRooms c1 _ _ => wf c1 && disjoint (cont c1) (first c1)
   | Custom _ => false
   end.
+
+(* ------------------------------------------------------------------ rooms as mathematical objects *)
+Definition cell := (nat * nat)%type.
+Definition cell_ltb (a b : cell) : bool :=
+  Nat.ltb (fst a) (fst b) || (Nat.eqb (fst a) (fst b) && Nat.ltb (snd a) (snd b)).
+Definition cell_lt (a b : cell) : Prop := cell_ltb a b = true.
+Definition cell_to_pv (p : cell) : pv := cell_pv (fst p) (snd p).
+Definition room_to_pv (r : list cell) : pv := VList (map cell_to_pv r).
+Definition rooms_to_pv (rs : list (list cell)) : pv := VList (map room_to_pv rs).
+
+Definition adjacent (a b : cell) : Prop :=
+  (fst a = fst b /\ (S (snd a) = snd b \/ snd a = S (snd b))) \/
+  (snd a = snd b /\ (S (fst a) = fst b \/ fst a = S (fst b))).
+
+(* a and b are joined by a path of orthogonally adjacent cells of r *)
+Inductive conn (r : list cell) : cell -> cell -> Prop :=
+  | conn_refl a : In a r -> conn r a a
+  | conn_step a b c : conn r a b -> In c r -> adjacent b c -> conn r a c.
+
+From Coq Require Import Sorting.Permutation Sorting.Sorted.
+
+(* a partition of the h x w board into non-empty orthogonally connected rooms, in any order *)
+Definition valid_rooms (h w : Z) (rs : list (list cell)) : Prop :=
+  Forall (fun r => r <> []) rs /\
+  Permutation (concat rs) (cells_of h w) /\
+  Forall (fun r => forall a b, In a r -> In b r -> conn r a b) rs.
+
+Definition room_head (r : list cell) : cell := hd (0%nat, 0%nat) r.
+
+(* the order the decoder produces: cells row-major, rooms by their least cell *)
+Definition canonical_rooms (h w : Z) (rs : list (list cell)) : Prop :=
+  valid_rooms h w rs /\
+  Forall (fun r => StronglySorted cell_lt r) rs /\
+  StronglySorted (fun r1 r2 => cell_lt (room_head r1) (room_head r2)) rs.
+
+(* ------------------------------------------------------------------ the domain of a term *)
+(* the group of items consumed at idx is decoded without padding *)
+Fixpoint exact (e : env) (c : comb) (data : list pv) (idx : nat) {struct c} : Prop :=
+  match c with
+  | MultiDigit _ d => (idx + d <= length data)%nat
+  | OneOf l =>
+      (fix go (l : list comb) : Prop :=
+         match l with
+         | [] => True
+         | c1 :: l' => match ser e c1 (VList data) idx with
+                       | Ok None => go l'
+                       | _ => exact e c1 data idx
+                       end
+         end) l
+  | _ => True
+  end.
+
+(* one serialize call on `items` consumes all of them *)
+Definition consumed_all (e : env) (c : comb) (items : list pv) : Prop :=
+  forall k s, ser e c (VList items) 0 = Ok (Some (k, s)) -> k = length items.
+
+(* the value(s) consumed at data[idx] have the documented shape of the term *)
+Fixpoint accepts (e : env) (c : comb) (data : list pv) (idx : nat) {struct c} : Prop :=
+  match c with
+  | OneOf l =>
+      (fix go (l : list comb) : Prop :=
+         match l with
+         | [] => True
+         | c1 :: l' => match ser e c1 (VList data) idx with
+                       | Ok None => go l'
+                       | _ => accepts e c1 data idx
+                       end
+         end) l
+  | Tupl l =>
+      exists ds, nth_error data idx = Some (VTup ds) /\
+        (fix go (l : list comb) (ds : list pv) : Prop :=
+           match l, ds with
+           | [], [] => True
+           | c1 :: l', d1 :: ds' =>
+               (exists items, d1 = VList items /\ accepts e c1 items 0 /\ exact e c1 items 0
+                              /\ consumed_all e c1 items) /\ go l' ds'
+           | _, _ => False
+           end) l ds
+  | Seq c1 n =>
+      exists d, nth_error data idx = Some (VList d) /\ Z.of_nat (length d) = n /\
+                forall p, accepts e c1 d p
+  | Grid c1 hw =>
+      exists rows, nth_error data idx = Some (VList (map VList rows)) /\
+        Z.of_nat (length rows) = fst (grid_dims e hw) /\
+        Forall (fun r => Z.of_nat (length r) = snd (grid_dims e hw)) rows /\
+        forall p, accepts e c1 (concat rows) p
+  | Rooms _ _ =>
+      exists rs, nth_error data idx = Some (rooms_to_pv rs) /\ canonical_rooms (height e) (width e) rs
+  | ValuedRooms vc _ _ =>
+      exists rs values, nth_error data idx = Some (VTup [rooms_to_pv rs; VList values]) /\
+        canonical_rooms (height e) (width e) rs /\ length values = length rs /\
+        forall p, accepts e vc values p
+  | Custom _ => False
+  | _ => True
+  end.
+
+Definition env_ok (e : env) : Prop := 1 <= height e /\ 1 <= width e.
